@@ -431,7 +431,21 @@ fn fam_table(ctx: &CaseCtx, cov: &mut Cov) -> CaseOut {
     // one-shot
     let sink = SharedSink::new();
     let obs = sut::new_obs(u64::MAX);
-    let c = sut::decode(Entry::Lzma, &b.file, &b.options, ReaderKind::Slice, &sink, &obs);
+    // the one-shot decoder has no notion of "incomplete input allowed" (that flag belongs to the
+    // streaming decoder), and a generous memory limit changes nothing: a third of the runs set them
+    let mut o1 = b.options.clone();
+    match rng.below(6) {
+        0 | 1 => {
+            o1.allow_incomplete = true;
+            cov.name("oneshot_runs_with_allow_incomplete_set", 1);
+        }
+        2 => {
+            o1.memlimit = Some(usize::MAX);
+            cov.name("oneshot_runs_with_generous_memlimit", 1);
+        }
+        _ => {}
+    }
+    let c = sut::decode(Entry::Lzma, &b.file, &o1, ReaderKind::Slice, &sink, &obs);
     out.evals += 1;
     let got = sink.bytes();
     ctx.say(&b.desc);
